@@ -7,5 +7,11 @@ import PPProofs.Props.C15
 #print axioms PP.Threads.concurrent_eq_serial
 #print axioms PP.Threads.no_internal_error
 #print axioms PP.Threads.no_deadlock
+#print axioms PP.Threads.Locks.lock_order_no_deadlock
+#print axioms PP.Threads.Locks.packrat_nested_ordered
+#print axioms PP.Threads.Locks.lr_nested_ordered
+#print axioms PP.Threads.Locks.nested_entry_no_deadlock
+#print axioms PP.Threads.Locks.Ex.two_orders_unorderable
+#print axioms PP.Threads.Locks.Ex.two_orders_deadlock
 #print axioms PP.Threads.LR.lr_race_witness
 #print axioms PP.Threads.LR.lr_reset_race_witness
